@@ -15,7 +15,7 @@ import (
 func init() { register("C06", true, checkC06) }
 
 func checkC06(p *Prog, r *Report) {
-	r.Explain("HDR: every construction of a meta.ExifHeader takes ByteOrder from utils.BinaryOrder(x) and FirstIfdOffset from <that order>.Uint32(x[4:8]) — the payload's own TIFF header — in every container scanner. SIB: the three Exif entry points stored in ExifReader slots (DecodeTiff, DecodeJPEGIfd, DecodeIfd) initialise the same reader state (reset, image type, first-IFD offset, length, position) and start readIfd on NewIFD(h.ByteOrder, h.FirstIfd, ...). SWITCH: every decoding case of imagemeta.Decode funnels into one of these siblings. CAP: every reader handed to DecodeTiff/DecodeJPEGIfd/DecodeIfd, directly or through an ExifReader callback, is of a type implementing exif2.BufferedReader (all containers take the decoder's buffered path; the unbuffered one refuses long values). POS: the ISOBMFF hand-off consumes exactly the FirstIfdOffset it read from the payload's header before DecodeIfd (po = FirstIfdOffset) takes over. PAYSEEK: every Seek in package exif2 is relative to the current position, except the one that positions the stream at ExifHeader.TiffHeaderOffset (the payload decoder never computes absolute positions, which differ per container). PNGWALK: every exit of the PNG chunk walk is under a failed read/seek or under chunkType == \"eXIf\" (no other chunk, before or after the image data, influences the result). Equality of decoded values across containers is a run-time fact and is not decided; C10/C11/C12 cover the hand-offs.")
+	r.Explain("HDR: every construction of a meta.ExifHeader takes ByteOrder from utils.BinaryOrder(x) and FirstIfdOffset from <that order>.Uint32(x[4:8]) — the payload's own TIFF header — in every container scanner. SIB: the three Exif entry points stored in ExifReader slots (DecodeTiff, DecodeJPEGIfd, DecodeIfd) initialise the same reader state (reset, image type, first-IFD offset, length, position) and start readIfd on NewIFD(h.ByteOrder, h.FirstIfd, ...). SWITCH: every decoding case of imagemeta.Decode funnels into one of these siblings. CAP: every reader handed to DecodeTiff/DecodeJPEGIfd/DecodeIfd, directly or through an ExifReader callback, is of a type implementing exif2.BufferedReader (all containers take the decoder's buffered path; the unbuffered one refuses long values). POS: the ISOBMFF hand-off consumes exactly the FirstIfdOffset it read from the payload's header before DecodeIfd (po = FirstIfdOffset) takes over. PAYSEEK: every Seek in package exif2 is relative to the current position, except the one that positions the stream at ExifHeader.TiffHeaderOffset (the payload decoder never computes absolute positions, which differ per container). PNGWALK: every exit of the PNG chunk walk is under a failed read/seek or under chunkType == \"eXIf\" (no other chunk, before or after the image data, influences the result). HDRFLOW: every ExifHeader passed on or returned is, on every flow path, constructed for the payload at hand (a call result, a by-value parameter or a local holding one) — never loaded from a pointer parameter, field, global or captured variable, where an earlier payload's byte order and offset would be reused. WALKERR: in every loop that steps through the children of an ISOBMFF box, no exit of the loop is reachable from the failing side of a test of a child handler's error without rejoining the no-error path (a sibling box that fails, metadata or not, does not keep the Exif boxes after it from being read). Equality of decoded values across containers is a run-time fact and is not decided; C10/C11/C12 cover the hand-offs.")
 	r.Trusted("the decoders are deterministic functions of the reader state these rules pin down")
 	ruleHDR(p, r, "")
 	ruleSIB(p, r)
@@ -27,6 +27,10 @@ func checkC06(p *Prog, r *Report) {
 	ruleCapPos(p, r)
 	r.Floor("CAP", 5)
 	r.Floor("POS", 1)
+	ruleWalkErr(p, r)
+	ruleHdrFlow(p, r)
+	r.Floor("HDRFLOW", 8)
+	r.Floor("WALKERR", 5)
 	r.Floor("HDR", 4)
 	r.Floor("SIB", 3)
 	r.Floor("SWITCH", 3)
@@ -682,4 +686,266 @@ func ruleCapPos(p *Prog, r *Report) {
 			}
 		})
 	}
+}
+
+// ---- WALKERR: a sibling box that fails does not end the walk over its siblings --------------------------
+//
+// Every loop that steps through the children of a box with (*box).readInnerBox dispatches each child to a
+// handler and then closes it. "Other container content has no influence" requires that the outcome of a
+// handler — the child may be any box, metadata or not — decides nothing about the walk: no edge that leaves
+// the loop, and no return, may be reachable from the err != nil side of a test of a handler's error without
+// first rejoining the path the err == nil side takes. (The errors of readInnerBox itself and of the child's
+// close() do end the walk: after them the position in the parent is unknown.)
+func ruleWalkErr(p *Prog, r *Report) {
+	step := p.Func("isobmff", "*box", "readInnerBox")
+	cls := p.Func("isobmff", "*box", "close")
+	if step == nil || cls == nil {
+		r.Undecided("WALKERR", "isobmff.(*box).readInnerBox", "-", "unresolved anchor")
+		return
+	}
+	for _, f := range p.AllLibFns() {
+		if f.Pkg == nil || len(f.Blocks) == 0 || !strings.HasSuffix(f.Pkg.Pkg.Path(), "/isobmff") {
+			continue
+		}
+		for li, l := range findLoops(f) {
+			walks := false
+			for b := range l.Blocks {
+				for _, in := range b.Instrs {
+					if c, ok := in.(*ssa.Call); ok && c.Call.StaticCallee() == step {
+						walks = true
+					}
+				}
+			}
+			if !walks {
+				continue
+			}
+			key := fmt.Sprintf("%s | child walk #%d", fnName(f), li+1)
+			at := p.posStr(blockPos0(l.Head))
+			nTests, nHandlers := 0, 0
+			bad := ""
+			for b := range l.Blocks {
+				if len(b.Instrs) == 0 {
+					continue
+				}
+				ifi, ok := b.Instrs[len(b.Instrs)-1].(*ssa.If)
+				if !ok {
+					continue
+				}
+				bo, ok := ifi.Cond.(*ssa.BinOp)
+				if !ok || (bo.Op != token.NEQ && bo.Op != token.EQL) {
+					continue
+				}
+				var ev ssa.Value
+				if isNilConst(bo.Y) && isErrorType(bo.X.Type()) {
+					ev = bo.X
+				} else if isNilConst(bo.X) && isErrorType(bo.Y.Type()) {
+					ev = bo.Y
+				}
+				if ev == nil {
+					continue
+				}
+				handler := ""
+				seen := map[ssa.Value]bool{}
+				var trace func(v ssa.Value, d int)
+				trace = func(v ssa.Value, d int) {
+					if seen[v] || d > 8 {
+						return
+					}
+					seen[v] = true
+					switch x := v.(type) {
+					case *ssa.Phi:
+						for _, e := range x.Edges {
+							trace(e, d+1)
+						}
+					case *ssa.Extract:
+						trace(x.Tuple, d+1)
+					case *ssa.Call:
+						sc := x.Call.StaticCallee()
+						if sc == step || sc == cls {
+							return
+						}
+						if l.Blocks[x.Block()] {
+							handler = calleeName(&x.Call)
+						}
+					}
+				}
+				trace(ev, 0)
+				if handler == "" {
+					continue
+				}
+				nTests++
+				nHandlers++
+				nonnil, nilS := b.Succs[0], b.Succs[1]
+				if bo.Op == token.EQL {
+					nonnil, nilS = nilS, nonnil
+				}
+				// blocks of the loop the err == nil side reaches before the next iteration
+				rNil := map[*ssa.BasicBlock]bool{}
+				var mark func(x *ssa.BasicBlock)
+				mark = func(x *ssa.BasicBlock) {
+					if rNil[x] || !l.Blocks[x] || x == l.Head {
+						return
+					}
+					rNil[x] = true
+					for _, s := range x.Succs {
+						mark(s)
+					}
+				}
+				mark(nilS)
+				vis := map[*ssa.BasicBlock]bool{}
+				var walk func(x *ssa.BasicBlock)
+				walk = func(x *ssa.BasicBlock) {
+					if vis[x] || bad != "" {
+						return
+					}
+					vis[x] = true
+					if !l.Blocks[x] {
+						bad = fmt.Sprintf("the error of %s (tested at %s) leads out of the walk at %s without rejoining the path taken when there is no error: a child box that fails keeps the remaining children — the Exif boxes among them — from being read", handler, p.posStr(instrPos(ifi)), p.posStr(blockPos0(x)))
+						return
+					}
+					if rNil[x] || x == l.Head {
+						return
+					}
+					for _, s := range x.Succs {
+						walk(s)
+					}
+				}
+				walk(nonnil)
+			}
+			if bad != "" {
+				r.Bad("WALKERR", key, at, bad)
+			} else {
+				r.OK("WALKERR", key, at, fmt.Sprintf("%d tests of handler errors inside the walk, none decides whether the walk continues", nTests))
+			}
+			_ = nHandlers
+		}
+	}
+}
+
+// blockPos0: first valid position of an instruction in the block.
+func blockPos0(b *ssa.BasicBlock) token.Pos {
+	for _, in := range b.Instrs {
+		if ps := instrPos(in); ps.IsValid() {
+			return ps
+		}
+	}
+	return token.NoPos
+}
+
+// ---- HDRFLOW: the header handed to the Exif decoder is the one read from this payload ---------------------
+//
+// Every meta.ExifHeader value that is passed on in a call or returned must, on every flow path, be the result of a
+// header construction made for the payload at hand (a call returning an ExifHeader, ultimately
+// meta.NewExifHeader over the payload's own bytes — which HDR checks), a by-value parameter, or a local variable
+// holding such a value. A header loaded from memory that outlives the payload — a pointer parameter, a field, a
+// package-level variable, a captured variable — is some other payload's header: its byte order and
+// first-directory offset need not be this payload's.
+func ruleHdrFlow(p *Prog, r *Report) {
+	isHdr := func(t types.Type) bool {
+		n, ok := t.(*types.Named)
+		return ok && n.Obj().Name() == "ExifHeader" && n.Obj().Pkg() != nil && strings.HasSuffix(n.Obj().Pkg().Path(), "/meta")
+	}
+	var origin func(f *ssa.Function, v ssa.Value, d int, seen map[ssa.Value]bool) string
+	origin = func(f *ssa.Function, v ssa.Value, d int, seen map[ssa.Value]bool) string {
+		if seen[v] || d > 8 {
+			return ""
+		}
+		seen[v] = true
+		switch x := v.(type) {
+		case *ssa.Call, *ssa.Const, *ssa.Parameter:
+			return ""
+		case *ssa.Extract:
+			if _, ok := x.Tuple.(*ssa.Call); ok {
+				return ""
+			}
+			return "a value of unrecognised origin"
+		case *ssa.Phi:
+			for _, e := range x.Edges {
+				if w := origin(f, e, d+1, seen); w != "" {
+					return w
+				}
+			}
+			return ""
+		case *ssa.UnOp:
+			if x.Op != token.MUL {
+				return "a value of unrecognised origin"
+			}
+			switch a := x.X.(type) {
+			case *ssa.Alloc:
+				for _, rf := range refs(a) {
+					switch u := rf.(type) {
+					case *ssa.Store:
+						if u.Addr == ssa.Value(a) {
+							if w := origin(f, u.Val, d+1, seen); w != "" {
+								return w
+							}
+						}
+					case *ssa.Call:
+						// the address of the local handed to a callee: anything may be written into it
+						return "a local variable whose address is passed to " + calleeName(&u.Call)
+					}
+				}
+				return ""
+			case *ssa.Parameter:
+				return "the header behind the pointer parameter " + a.Name() + " (written by an earlier payload)"
+			case *ssa.FreeVar:
+				return "the captured variable " + a.Name()
+			case *ssa.Global:
+				return "the package-level variable " + globalName(a)
+			case *ssa.FieldAddr:
+				return "the field " + fieldName(a.X.Type(), a.Field) + " of a longer-lived object"
+			case *ssa.IndexAddr:
+				return "an element of a longer-lived array"
+			}
+			return "memory of unrecognised origin"
+		}
+		return "a value of unrecognised origin (" + shortVal(v) + ")"
+	}
+	n := 0
+	for _, f := range p.AllLibFns() {
+		if len(f.Blocks) == 0 {
+			continue
+		}
+		eachInstr(f, func(b *ssa.BasicBlock, _ int, in ssa.Instruction) {
+			var vals []ssa.Value
+			what := ""
+			switch x := in.(type) {
+			case ssa.CallInstruction:
+				c := x.Common()
+				if sc := c.StaticCallee(); sc != nil && sc.Signature.Recv() != nil && isHdr(derefT(sc.Signature.Recv().Type())) {
+					return // a method of the header itself
+				}
+				for _, a := range c.Args {
+					if isHdr(a.Type()) {
+						vals = append(vals, a)
+					}
+				}
+				what = "passed to " + calleeName(c)
+			case *ssa.Return:
+				for _, a := range x.Results {
+					if isHdr(a.Type()) {
+						vals = append(vals, a)
+					}
+				}
+				what = "returned"
+			}
+			for _, v := range vals {
+				n++
+				key := fmt.Sprintf("%s | header %s", fnName(f), what)
+				if w := origin(f, v, 0, map[ssa.Value]bool{}); w != "" {
+					r.Bad("HDRFLOW", key, p.posStr(instrPos(in)), "the header "+what+" is "+w+": its byte order and first-directory offset are not read from the payload being handed over")
+				} else {
+					r.OK("HDRFLOW", key, p.posStr(instrPos(in)), "constructed for this payload on every flow path")
+				}
+			}
+		})
+	}
+	_ = n
+}
+
+func derefT(t types.Type) types.Type {
+	if pt, ok := t.Underlying().(*types.Pointer); ok {
+		return pt.Elem()
+	}
+	return t
 }
